@@ -187,6 +187,59 @@ fn g_symbol() -> BoxedStrategy<BitmapCase> {
         .boxed()
 }
 
+/// Bitmaps larger than any Data Matrix symbol (the API takes any w x h array): beyond 181 x 181 the
+/// number of outline-graph cells exceeds 2^15, beyond about 230 x 230 a densely dotted bitmap has more
+/// than 2^16 unit path steps - where 16-bit indices inside the path builder would wrap.
+fn g_large() -> BoxedStrategy<BitmapCase> {
+    (178usize..=270, 178usize..=270, any::<u64>(), any::<u8>(), any::<u8>())
+        .prop_map(|(w, h, seed, kind, dens)| {
+            let r = expand(seed, w * h);
+            let mut bits = vec![false; w * h];
+            match kind % 5 {
+                // sparse random modules
+                0 => {
+                    for (i, b) in bits.iter_mut().enumerate() {
+                        *b = r[i] < 1 + dens % 12;
+                    }
+                }
+                // isolated dots on the even grid (4 path steps each) plus a few random extra modules that
+                // create diagonal contacts, i.e. outline nodes of degree four
+                1 | 2 => {
+                    for y in (0..h).step_by(2) {
+                        for x in (0..w).step_by(2) {
+                            bits[y * w + x] = true;
+                        }
+                    }
+                    for (i, b) in bits.iter_mut().enumerate() {
+                        if r[i] < 1 + dens % 4 {
+                            *b = true;
+                        }
+                    }
+                }
+                // border frame + far corners
+                3 => {
+                    for x in 0..w {
+                        bits[x] = true;
+                        bits[(h - 1) * w + x] = r[x] & 1 == 1;
+                    }
+                    for y in 0..h {
+                        bits[y * w] = true;
+                        bits[y * w + w - 1] = r[y] & 2 == 2;
+                    }
+                    bits[w * h - 1] = true;
+                }
+                // two far apart modules only
+                _ => {
+                    bits[w * h - 1] = true;
+                    bits[(h / 2) * w + w - 1] = dens & 1 == 1;
+                }
+            }
+            bits[0] = true;
+            BitmapCase { width: w, bits, stratum: "large" }
+        })
+        .boxed()
+}
+
 fn run(ctx: &Arc<Ctx>) {
     // all bitmaps up to 3x3 and 2x4 / 4x2 with dark top-left: exhaustive
     let mut tiny = Vec::new();
@@ -213,6 +266,7 @@ fn run(ctx: &Arc<Ctx>) {
     ctx.run_generated("arbitrary", "bitmap", ctx.cases(100_000, 1_500_000), || g_arbitrary(maxdim), check);
     ctx.run_generated("structured", "bitmap", ctx.cases(100_000, 1_500_000), || g_structured(maxdim), check);
     ctx.run_generated("symbols", "bitmap", ctx.cases(20_000, 400_000), g_symbol, check);
+    ctx.run_generated("large", "bitmap", ctx.cases(400, 6_000), g_large, check);
 }
 
 fn replay(_ctx: &Ctx, kind: &str, case: &Value) -> Option<Verdict> {
